@@ -428,6 +428,8 @@ def check(ctx):
     _s2(ctx)
     _s3(ctx)
     _k1(ctx)
+    from . import c14
+    c14._a8(ctx, "C20-W2")  # one worker runs jobs in-process on the caller's objects, several workers on pickled copies: jobs must not prune shared groups in place
     ctx.assume("joblib's generator_unordered yields each job's return value exactly once (order unspecified)")
 
 
@@ -435,6 +437,7 @@ MP = "accelforge/mapper/FFM/_make_pmappings/make_pmappings.py"
 CP = "accelforge/mapper/FFM/_join_pmappings/compress_pmappings.py"
 MTS = "accelforge/mapper/FFM/_make_pmappings/make_pmappings_from_templates/make_tile_shapes.py"
 VARIANTS = [
+    {"kind": "F", "name": "dirty-prune-in-place", "rule": "C20-W2", "edits": [("accelforge/mapper/FFM/_join_pmappings/join_pmappings.py", "                resource_usage_tolerance=resource_usage_tolerance,\n                inplace=False,\n            ),", "                resource_usage_tolerance=resource_usage_tolerance,\n            ),")]},
     {"kind": "F", "name": "reintroduce-unordered-extend", "rule": "C20-U1", "edits": [
         (MP, '        pbar=f"Generating pmappings" if print_progress or one_pbar_only else None,\n    ):',
          '        pbar=f"Generating pmappings" if print_progress or one_pbar_only else None,\n        return_as="generator_unordered",\n    ):')]},
